@@ -26,10 +26,10 @@ import (
 
 type Case struct {
 	Root, Pkg, Spec, Func, Obligation, Clause, Solver string
-	Params                                             []sym.ParamInfo
-	Results                                            []string
-	Exported, Recv                                     bool
-	Model                                              map[string]string
+	Params                                            []sym.ParamInfo
+	Results                                           []string
+	Exported, Recv                                    bool
+	Model                                             map[string]string
 }
 
 // decodeSMTString turns an SMT-LIB string literal into raw bytes.
